@@ -322,14 +322,22 @@ inductive CopyAct where
   | shallow      -- CIMClass.path setter: copy.copy(path)
   deriving DecidableEq, Repr
 
-/-- mirrors the setters of pywbem/_cim_obj.py called by `<class>.copy()` -/
-def copyAct (k : Kind) (slot : String) : CopyAct :=
+def CopyAct.ofString : String → CopyAct
+  | "newDict" => .newDict | "value" => .value | "pathCopy" => .pathCopy | "shallow" => .shallow | _ => .share
+
+/-- what `copy()` does with a slot = what the setter of that attribute stores; read from the generated source
+    extraction (Generated/Slots.lean: setterActs).  mirrors the property setters of pywbem/_cim_obj.py -/
+def copySpec (k : Kind) : List CopyAct :=
+  (slotsOf k).map (fun s =>
+    CopyAct.ofString (((Pywbem.Generated.Slots.setterActs.lookup k.pyName).bind (·.lookup s)).getD "share"))
+
+/-- the sharing the docstrings of `copy()` describe: dict-valued attributes are re-created (their value objects
+    are shared), `value` goes through cimvalue(), the path is copied, everything else is immutable -/
+def docCopyAct (k : Kind) (slot : String) : CopyAct :=
   if slot ∈ ["keybindings", "properties", "qualifiers", "methods", "parameters", "scopes"] then .newDict
   else if slot = "value" then .value
   else if slot = "path" then (if k = .instance then .pathCopy else .shallow)
   else .share
-
-def copySpec (k : Kind) : List CopyAct := (slotsOf k).map (copyAct k)
 
 /-! the identity allocator is a counter `n : Nat`: the next unused identity -/
 
